@@ -13,6 +13,11 @@ from dsim.net import Net
 from dsim import dbusmod
 
 ADDR = {'A': '10.0.0.1', 'P': '10.0.0.2'}
+ADDR6 = {'A': 'fd00::a:1', 'P': 'fd00::a:2'}
+
+
+def addr_of(plan, side):
+    return (ADDR6 if plan.get('ipv6') else ADDR)[side]
 AGENT_PATH = '/org/ietf/dtn/tcpcl/Agent'
 SEC = 10**6
 
@@ -133,6 +138,7 @@ def gen_plan(ch, prof):
     for _ in range(nq):
         ops.append(dict(t=1000 * ch.pick('q.t', 6000), node=ch.choice('q.n', ('A', 'P')),
                         op=ch.choice('q.op', ('idle', 'txq', 'rxq', 'params', 'state', 'popdup', 'idle', 'txq', 'conns', 'listen'))))
+    late_busy = None
     if prof.get('terminate'):
         nterm = 1 + ch.weighted('nterm', (5, 2, 1))
         for _ in range(nterm):
@@ -145,10 +151,21 @@ def gen_plan(ch, prof):
         if ch.coin('late.send', 1, 3):
             # a bundle queued just after a side entered the ending state
             side = ch.choice('late.n', ('A', 'P'))
+            if ch.coin('late.kind', 1, 2):
+                trig = ['dbus-signal', side, 1, 'session_state_changed', 'ending']
+            else:
+                # ... or just as the peer has the last segment of one of this side's transfers, i.e. around the time the final
+                # acknowledgement comes back
+                trig = ['dbus-signal', 'P' if side == 'A' else 'A', 1 + ch.pick('late.nth', 3), 'recv_bundle_finished']
             ops.append(dict(node=side, op='send', len=ch.choice('late.len', (1, 100, 5000)), tag=tag,
-                            after=['dbus-signal', side, 1, 'session_state_changed', 'ending'], delay=ch.choice('late.delay', (0, 0, 30, 300))))
+                            after=trig, delay=ch.choice('late.delay', (0, 0, 30, 100, 300))))
             tag += 1
+            if ch.coin('late.busy', 1, 2):
+                # the process is busy for a moment just then: the user's call and the peer's answer are both waiting when it resumes
+                late_busy = dict(kind='slow', node=side, dur=ch.choice('late.busy.dur', (2000, 30000)), after=list(trig), delay=0)
     faults = []
+    if late_busy is not None:
+        faults.append(late_busy)
     if prof.get('faults'):
         nflt = 1 + ch.weighted('nflt', (5, 2, 1))
         for _ in range(nflt):
@@ -164,6 +181,8 @@ def gen_plan(ch, prof):
             faults.append(flt)
     timed = sorted((op for op in ops if 't' in op), key=lambda op: op['t'])
     plan['ops'] = timed + [op for op in ops if 't' not in op]
+    # both hosts on IPv6 addresses in a share of the runs
+    plan['ipv6'] = bool(prof.get('ipv6', True)) and ch.coin('ipv6', 1, 6)
     plan['faults'] = faults
     plan['horizon'] = prof.get('horizon', 60 * SEC)
     return plan
@@ -246,7 +265,7 @@ class Harness:
         self.hang = False
         self.end_time = None
         for side in ('P', 'A'):
-            self.net.add_host('h' + side, ADDR[side])
+            self.net.add_host('h' + side, addr_of(plan, side))
             self.bus[side] = dbusmod.SimBus(self.wld, 'bus' + side)
             node = self.wld.add_node(side, host='h' + side)
             self.node[side] = node
@@ -260,7 +279,7 @@ class Harness:
                         setattr(cfg, key, val)
                 cfg._bus_conn = self.bus[side]
                 if side == 'P':
-                    cfg.init_listen = [tcpcl.config.ListenConfig(address=ADDR['P'], port=4556)]
+                    cfg.init_listen = [tcpcl.config.ListenConfig(address=addr_of(plan, 'P'), port=4556)]
                 self.agent[side] = tcpcl.agent.Agent(cfg)
             self._watch(side)
 
@@ -301,7 +320,7 @@ class Harness:
         kind = op['op']
         wld = self.wld
         if kind == 'connect':
-            self.call(side, AGENT_PATH, 'connect', ADDR['P'], 4556)
+            self.call(side, AGENT_PATH, 'connect', addr_of(self.plan, 'P'), 4556)
             return
         if kind in ('shutdown', 'stop'):
             self.call(side, AGENT_PATH, kind)
@@ -312,8 +331,8 @@ class Harness:
         if kind == 'listen':
             # a second listening socket, taken down again
             self.listen_port = getattr(self, 'listen_port', 4600) + 1
-            self.call(side, AGENT_PATH, 'listen', ADDR[side], self.listen_port)
-            self.call(side, AGENT_PATH, 'listen_stop', ADDR[side], self.listen_port)
+            self.call(side, AGENT_PATH, 'listen', addr_of(self.plan, side), self.listen_port)
+            self.call(side, AGENT_PATH, 'listen_stop', addr_of(self.plan, side), self.listen_port)
             return
         path = self.contact[side]
         if path is None:
